@@ -355,3 +355,41 @@ def as_dict(pid, converter=False):
     if converter:
         c.tag = 'with-output-converter'
     return c
+
+
+
+def replay_group_alter(obligation, model, meta):
+    """native run of the real GroupBase.alter on a small real group with recording stub models: every addressed device must receive
+    its own value, whatever the order of the models in the idx list"""
+    import itertools
+    from andes.models.group import GroupBase
+    for idx, values in (([1, 2, 'G4'], [10.0, 20.0, 30.0]), ([1, 'G4', 2], [1.5, 2.5, 3.5]), (['G4', 2, 'G5', 1], [4.0, 3.0, 2.0, 1.0]),
+                        ([2], 7.0), ([1, 'G5'], 9.0)):
+        got = {}
+
+        class Stub:
+            def __init__(self, name, devs):
+                self.class_name, self.n = name, len(devs)
+                self.__dict__['p0'] = None
+
+            def alter(self, src, ii, val, attr='v'):
+                import numpy as np
+                iis = ii if isinstance(ii, (list, tuple, np.ndarray)) else [ii]
+                vals = val if isinstance(val, (list, tuple, np.ndarray)) else [val] * len(iis)
+                for a, b in zip(iis, vals):
+                    got[a] = (self.class_name, src, float(b), attr)
+        g = GroupBase()
+        g.common_params.append('p0')
+        ma, mb = Stub('A', [1, 2]), Stub('B', ['G4', 'G5'])
+        g.add_model('A', ma)
+        g.add_model('B', mb)
+        for i, m in ((1, ma), (2, ma), ('G4', mb), ('G5', mb)):
+            g.add(i, m)
+        owner = {1: 'A', 2: 'A', 'G4': 'B', 'G5': 'B'}
+        g.alter('p0', idx, values)
+        vals = values if isinstance(values, list) else [values] * len(idx)
+        want = {i: (owner[i], 'p0', float(v), 'v') for i, v in zip(idx, vals)}
+        if got != want:
+            return {'confirmed': True, 'inputs': {'idx': idx, 'value': values},
+                    'observed': 'devices received %r, expected %r' % (got, want), 'native_cmd': 'GroupBase.alter(src, idx, value) on a two-model group'}
+    return {'confirmed': False, 'tried': 5}
